@@ -305,6 +305,11 @@ def specs(draw, max_masters=9):
         "omit_default_dims": draw(st.booleans()),
         # class kerning whose two classes have the same size and alphabetically interleaving members
         "classmix": draw(st.booleans()),
+        # 7..13-point contours whose masters are (rounded) affine deformations of the default: deltas vary smoothly along
+        # the contour, so IUP optimisation has no forced point and must solve the circular problem
+        "smooth": kind == "glyf" and draw(st.integers(0, 2)) > 0,
+        # glyph pairs written in some masters only (the others fall back on class kerning or on nothing)
+        "pairdrop": draw(st.integers(0, 2)) > 0,
     }
 
 
@@ -320,6 +325,30 @@ def _var(rnd, naxes, base, amp, const_p=0.0):
     quad = [rnd.randint(-amp // 3, amp // 3) for _ in range(naxes)]
     cross = [rnd.randint(-amp // 4, amp // 4) for a in range(naxes) for b in range(a + 1, naxes)]
     return {"b": base, "l": lin, "q": quad, "c": cross}
+
+
+def _smooth_contours(rnd, naxes, ncont):
+    """Contours of 7..13 on-curve points on a jittered circle; along every axis the whole glyph is scaled, sheared and shifted."""
+    maps = []
+    for _ in range(naxes):
+        # mostly scaling (what weight and width masters are): any shear makes a local extreme a forced point
+        sh = rnd.choice([0.0, 0.0, 0.0, 0.02, 0.12])
+        maps.append((rnd.uniform(-0.3, 0.3), rnd.uniform(-sh, sh), rnd.uniform(-sh, sh), rnd.uniform(-0.2, 0.2), rnd.randint(-30, 30), rnd.randint(-20, 20)))
+    out = []
+    for c in range(ncont):
+        npts = rnd.randint(7, 13)
+        cx, cy, rad = 200 + 330 * c, 350, 250
+        pts = []
+        for i in range(npts):
+            ang = 2 * math.pi * (i + rnd.uniform(-0.3, 0.3)) / npts
+            r = rad * rnd.uniform(0.7, 1.25)
+            bx, by = int(cx + r * math.cos(ang)), int(cy + r * math.sin(ang))
+            lx = [int(round(a * (bx - 300) + b * (by - 350))) + e for a, b, _, _, e, _ in maps]
+            ly = [int(round(c_ * (bx - 300) + d * (by - 350))) + f for _, _, c_, d, _, f in maps]
+            zero = [0] * naxes
+            pts.append({"x": {"b": bx, "l": lx, "q": zero, "c": []}, "y": {"b": by, "l": ly, "q": zero, "c": []}, "on": True})
+        out.append({"pts": pts, "segs": None})
+    return out
 
 
 def ev(var, t):
@@ -372,6 +401,9 @@ def expand(spec):
             continue
         ncont = 1 if name in marks or name == ".notdef" else rnd.choice([1, 1, 2])
         contours = []
+        if spec.get("smooth") and name in bases:
+            glyphs[name] = {"contours": _smooth_contours(rnd, n, ncont), "adv": _var(rnd, n, rnd.randint(400, 800), 70, 0.1)}
+            continue
         for c in range(ncont):
             npts = rnd.randint(3, 6)
             if spec["kind"] == "cff":
@@ -428,6 +460,23 @@ def expand(spec):
         for a, b in cand[: rnd.randint(1, min(5, len(cand)))]:
             pairs.append({"l": a, "r": b, "v": _var(rnd, n, rnd.choice([-1, 1]) * rnd.randint(15, 70), 40, 0.1)})
         pairs.sort(key=lambda p: (p["l"], p["r"]))
+        if spec.get("pairdrop") and len(spec["masters"]) > 1:
+            # own generator, see classmix
+            prnd = random.Random(spec["seed"] ^ 0xD209)
+            nm = len(spec["masters"])
+            for first in sorted({p["l"] for p in pairs}):
+                mine = [p for p in pairs if p["l"] == first]
+                if prnd.random() < 0.6:
+                    # some masters have no glyph pair at all that starts with this glyph
+                    out = prnd.sample(range(nm), prnd.randint(1, nm - 1))
+                    for p in mine:
+                        p["skip"] = sorted(out)
+                else:
+                    for p in mine:
+                        p["skip"] = sorted(prnd.sample(range(nm), prnd.randint(0, nm - 1)))
+            if not (spec["kern"] == "both" and len(bases) >= 2):
+                # without class kerning every master keeps one pair: a master without a kern feature is another input class
+                pairs[0]["skip"] = []
     if spec["kern"] in ("classes", "both") and len(bases) >= 2:
         k = max(1, len(bases) // 2)
         left, right = bases[:k], bases[k:]
@@ -482,13 +531,13 @@ def master_plan(spec, exp, mi):
     return names, emptied, layout, tables
 
 
-def fea_text(exp, t, names):
+def fea_text(exp, t, names, mi=None):
     out = ["languagesystem DFLT dflt;"]
     have = set(names)
     if exp["pairs"] or exp["classes"]:
         out.append("feature kern {")
         for p in exp["pairs"]:
-            if p["l"] in have and p["r"] in have:
+            if p["l"] in have and p["r"] in have and mi not in p.get("skip", ()):
                 out.append("  pos %s %s %d;" % (p["l"], p["r"], ev(p["v"], t)))
         if exp["classes"]:
             c = exp["classes"]
@@ -604,7 +653,7 @@ def build_master(spec, exp, mi):
     fb.setupOS2(**os2)
     fb.setupPost(keepGlyphNames=is_ttf, **post)
     if layout and (exp["pairs"] or exp["classes"] or exp["anchors"]):
-        fb.addOpenTypeFeatures(fea_text(exp, t, names))
+        fb.addOpenTypeFeatures(fea_text(exp, t, names, mi))
     buf = io.BytesIO()
     fb.font.save(buf)
     data = buf.getvalue()
